@@ -235,7 +235,8 @@ package argmapper
 //@ ghost vsP5(vs *ValueSet, T reflect.Type, n int) bool = forall(j, int, imp(0 <= j && j < len(vs.values) && vs.values[j].Name == "", has(vs.typedValues, vs.values[j].Type)))
 //@ ghost vsP6(vs *ValueSet, T reflect.Type, n int) bool = forall(m, string, imp(has(vs.namedValues, m), vs.namedValues[m] != nil && vs.namedValues[m].Name == m && m != "" && 0 <= vpos[vs.namedValues[m].index] && vpos[vs.namedValues[m].index] < len(vs.values) && vs.values[vpos[vs.namedValues[m].index]] == vs.namedValues[m]))
 //@ ghost vsP7(vs *ValueSet, T reflect.Type, n int) bool = forall(t, reflect.Type, imp(has(vs.typedValues, t), vs.typedValues[t] != nil && vs.typedValues[t].Type == t && vs.typedValues[t].Name == "" && 0 <= vpos[vs.typedValues[t].index] && vpos[vs.typedValues[t].index] < len(vs.values) && vs.values[vpos[vs.typedValues[t].index]] == vs.typedValues[t]))
-//@ ghost vsPart(vs *ValueSet, T reflect.Type, n int) bool = vsP0(vs, T, n) && vsP1(vs, T, n) && vsP2(vs, T, n) && vsP3(vs, T, n) && vsP4(vs, T, n) && vsP5(vs, T, n) && vsP6(vs, T, n) && vsP7(vs, T, n)
+//@ ghost vsP8(vs *ValueSet, T reflect.Type, n int) bool = imp(forall(k, int, imp(0 <= k && k < n, eligible(T, k))), len(vs.values) == n && forall(j, int, imp(0 <= j && j < n, vs.values[j].index == j)))
+//@ ghost vsPart(vs *ValueSet, T reflect.Type, n int) bool = vsP8(vs, T, n) && vsP0(vs, T, n) && vsP1(vs, T, n) && vsP2(vs, T, n) && vsP3(vs, T, n) && vsP4(vs, T, n) && vsP5(vs, T, n) && vsP6(vs, T, n) && vsP7(vs, T, n)
 //@ ghost vsOK(vs *ValueSet, T reflect.Type) bool = vsPart(vs, T, numField(T))
 
 //@ ghost vsKept() bool = kept(ValueSet, Value, valueInternal, []*Value, map[string]*Value, map[reflect.Type]*Value, map[string]string, []string, reflect.StructField)
@@ -253,6 +254,7 @@ package argmapper
 //@   ensures  [mirrors-struct-5] imp(result1 == nil, vsP5(result0, baseType(old(typ)), numField(baseType(old(typ)))))
 //@   ensures  [mirrors-struct-6] imp(result1 == nil, vsP6(result0, baseType(old(typ)), numField(baseType(old(typ)))))
 //@   ensures  [mirrors-struct-7] imp(result1 == nil, vsP7(result0, baseType(old(typ)), numField(baseType(old(typ)))))
+//@   ensures  [mirrors-struct-8] imp(result1 == nil, vsP8(result0, baseType(old(typ)), numField(baseType(old(typ)))))
 //@   ensures  [error-means-nil] imp(result1 != nil, result0 == nil)
 //@   ensures  [frame] vsKept()
 //@   assigns  ValueSet, Value, valueInternal, []*Value, map[string]*Value, map[reflect.Type]*Value, map[string]string, []string, []interface{}, reflect.StructField, vpos
@@ -277,6 +279,7 @@ package argmapper
 //@   loop 2 invariant vsP5(result, typ, i)
 //@   loop 2 invariant vsP6(result, typ, i)
 //@   loop 2 invariant vsP7(result, typ, i)
+//@   loop 2 invariant vsP8(result, typ, i)
 //@   loop 2 decreases numField(typ) - i
 //@   loop 3 invariant vsKept() && typ == baseType(old(typ)) && kindof(typ) == 25 && 0 <= i && i < numField(typ) && ptrCount == ptrDepth(old(typ)) && ptrCount <= 1
 //@   loop 3 invariant result != nil && fresh(result) && result.structPointers == ptrCount && !result.isLifted && fresh(result.namedValues) && fresh(result.typedValues) && fresh(result.values)
@@ -289,8 +292,35 @@ package argmapper
 //@   loop 3 invariant vsP5(result, typ, i)
 //@   loop 3 invariant vsP6(result, typ, i)
 //@   loop 3 invariant vsP7(result, typ, i)
+//@   loop 3 invariant vsP8(result, typ, i)
 //@   loop 3 invariant eligible(typ, i) && sf.Type == fieldType(typ, i) && tag == ftag(typ, i) && tag != "" && name == ite(splitAt(tag, ",", 0) != "", splitAt(tag, ",", 0), fieldName(typ, i))
 //@   loop 3 invariant options != nil && fresh(options) && len(parts) == splitLen(tag, ",") && fresh(parts) && forall(j, int, imp(0 <= j && j < len(parts), parts[j] == splitAt(tag, ",", j)))
 //@   loop 3 invariant forall(j, int, imp(1 <= j && j < 1 + idx3, has(options, optKey(splitAt(tag, ",", j)))))
 //@   loop 3 invariant forall(k, string, imp(forall(j, int, imp(1 <= j && j < 1 + idx3, optKey(splitAt(tag, ",", j)) != k)), !has(options, k)))
 //@   loop 3 invariant forall(j, int, imp(1 <= j && j < 1 + idx3 && forall(jj, int, imp(j < jj && jj < 1 + idx3, optKey(splitAt(tag, ",", jj)) != optKey(splitAt(tag, ",", j)))), options[optKey(splitAt(tag, ",", j))] == optVal(splitAt(tag, ",", j))))
+
+// ---- newValueSet: positional lifting
+//@ extern param:argmapper.newValueSet:get :: (i int) reflect.Type
+//@   pure
+//@   requires [getter-in-range] getOK(self, i)
+//@   ensures  result == getT(self, i) && result != nil
+
+//@ ghost emptyVS(vs *ValueSet) bool = vs != nil && vs.structType == nil && len(vs.values) == 0 && vs.namedValues == nil && vs.typedValues == nil && !vs.isLifted && vs.structPointers == 0
+//@ ghost liftedVS(vs *ValueSet, get func(int) reflect.Type, count int) bool =
+//@     vs != nil && vs.isLifted && vs.structPointers == 0 && vs.structType != nil && kindof(vs.structType) == 25 && numField(vs.structType) == count && len(vs.values) == count && soff(vs.values) == 0
+//@     && vs.namedValues != nil && vs.typedValues != nil
+//@     && forall(i, int, imp(0 <= i && i < count, vs.values[i] != nil && vs.values[i].index == i && vs.values[i].Type == getT(get, i) && fieldType(vs.structType, i) == getT(get, i) && vs.values[i].Name == "" && vs.values[i].Subtype == "" && !valid(vs.values[i].Value) && has(vs.typedValues, getT(get, i))))
+//@     && forall(t, reflect.Type, imp(has(vs.typedValues, t), vs.typedValues[t] != nil && vs.typedValues[t].Type == t && 0 <= vs.typedValues[t].index && vs.typedValues[t].index < count && vs.values[vs.typedValues[t].index] == vs.typedValues[t]))
+
+//@ func newValueSet
+//@   requires count >= 0 && get != nil && forall(i, int, imp(0 <= i && i < count, getOK(get, i)))
+//@   ensures  [empty] imp(count == 0, result1 == nil && emptyVS(result0) && fresh(result0))
+//@   ensures  [single-marker-struct] imp(count == 1 && isMarkerStruct(getT(get, 0)), (result1 == nil) == (ptrDepth(getT(get, 0)) <= 1) && imp(result1 == nil, vsOK(result0, baseType(getT(get, 0))) && fresh(result0) && result0.structPointers == ptrDepth(getT(get, 0)) && !result0.isLifted))
+//@   ensures  [mixed-marker-rejected] imp(count > 1 && exists(i, int, 0 <= i && i < count && isMarkerStruct(getT(get, i))), result1 != nil)
+//@   ensures  [lifted] imp(count >= 1 && forall(i, int, imp(0 <= i && i < count, !isMarkerStruct(getT(get, i)))), result1 == nil && liftedVS(result0, get, count) && fresh(result0))
+//@   ensures  [error-means-nil] imp(result1 != nil, result0 == nil)
+//@   ensures  [frame] vsKept() && sliceskept([]reflect.StructField)
+//@   assigns  ValueSet, Value, valueInternal, []*Value, map[string]*Value, map[reflect.Type]*Value, map[string]string, []string, []interface{}, reflect.StructField, []reflect.StructField, vpos
+//@   loop 1 invariant vsKept() && sliceskept([]reflect.StructField) && 0 <= i && i <= count && len(sf) == i && soff(sf) == 0 && (fresh(sf) || sf == nil)
+//@   loop 1 invariant forall(j, int, imp(0 <= j && j < i, sf[j].Type == getT(get, j) && sf[j].Tag == "argmapper:\",typeOnly\"" && sf[j].PkgPath == "" && !sf[j].Anonymous && !isMarkerStruct(getT(get, j))))
+//@   loop 1 decreases count - i
